@@ -113,7 +113,12 @@ pub fn parse_idat(
         // and they have to be consecutive, so stop once we see
         // something weird
         let chunk_type = &png_idat_stream[pos + 4..pos + 8];
-        if chunk_type != b"IDAT" || pos + chunk_len + 12 > png_idat_stream.len() {
+        // a zero-length chunk ends the run: its size would be indistinguishable from the
+        // terminator of the serialized size list
+        if chunk_type != b"IDAT"
+            || chunk_len == 0
+            || pos + chunk_len + 12 > png_idat_stream.len()
+        {
             break;
         }
 
